@@ -105,8 +105,7 @@ def generate(tier, sd):
                 gstats["generated"] += st.get("generated", 0)
                 gstats["distinct"] += st.get("distinct", 0)
                 gstats["bfs_programs"] += len(ps)
-                if quick:
-                    ps = stratified(ps, rng, 80 if sig in deep else 30)
+                ps = stratified(ps, rng, (80 if sig in deep else 30) if quick else 400)
                 for p in ps:
                     out.append((p, f"ProgGen-bfs-sig{sig}"))
             # statement structure: lean expressions, deeper BFS, stratified by the shape of the body
@@ -124,8 +123,7 @@ def generate(tier, sd):
             # deep random behaviours
             ps, st = _run(sc, sig, 0, True, sim=(150 if quick else 3000), depth=(11 if quick else 13), sd=sd * 100 + sig)
             gstats["sim_programs"] += len(ps)
-            if quick:
-                ps = stratified(ps, rng, 60)
+            ps = stratified(ps, rng, 60 if quick else 400)
             for p in ps:
                 out.append((p, f"ProgGen-sim-sig{sig}"))
     res = []
